@@ -1041,6 +1041,15 @@ def run_property(prop, tier, seed):
                         'size_type, SmallVector size bound, noexcept of move / swap, container traits), decided by the compiler in every cell '
                         '(compiler x language standard); distinct_nontrivial = number of rows, evaluations = static_asserts x cells',
                    samples=st['sample_rows'], cells=st['cells'], asserts_per_cell=st['asserts_per_cell'])
+    if prop == 'C20':
+        ev['level'] = 'exploration'
+        nconst = sum(r['stats'].get('constOps', 0) for r in results)
+        cov.update(evaluations=nconst, distinct_nontrivial=len([r for r in results if r['stats'].get('constOps', 0) > 0]),
+                   rule='every const call (element access, walks, lookups, comparisons, source of a copy) recorded in the vector / set suites, '
+                        'plus every result obtained by the concurrent reader threads (2-8 threads, TSan build); non-trivial = the call was '
+                        'executed on an existing container and its representation hash / sequential value was checked by TLC; '
+                        'distinct_nontrivial counts, conservatively, the distinct implementation configurations (container type x element '
+                        'category x allocator x explored state space) in which such calls were checked, not the calls themselves')
     if prop == 'C09':
         ev['level'] = 'fault_enumeration'
         nf = sum(r['stats'].get('faults', 0) for r in results)
@@ -1055,7 +1064,69 @@ def run_property(prop, tier, seed):
                     '+'.join(PROP_SUITES[prop]), len(results), cov['ops_validated'], cov['transitions'], cov['design_drift']))
 
 
+def all_vec_configs():
+    out = {}
+    for tier in ('thorough', 'quick'):
+        for c in vec1_configs(tier) + vec2_configs(tier) + swap2_configs(tier) + fault_configs(tier) + limit_configs(tier) + growth_configs(tier):
+            out.setdefault(c.name, c)
+    for c in [ImplCfg('sim_s3_NTR_amcled', 'NTR', 'amcled', [('small', 3, 'u32')] * 2 + [('vector', 0, 'u32')]),
+              ImplCfg('sim_s2_TR_withrealloc', 'TR', 'withrealloc', [('small', 2, 'u32')] * 2 + [('fixed', 6)]),
+              ImplCfg('sim_ref_std_NTR', 'NTR', 'stdlike', [('std',)] * 3),
+              ImplCfg('sim_v_NTR_stdlike', 'NTR', 'stdlike', [('vector', 0, 'u32')] * 3),
+              ImplCfg('sim_f5_NTR', 'NTR', 'stdlike', [('fixed', 5)] * 2 + [('small', 4, 'u8')]),
+              ImplCfg('sim_s4_TC_amc', 'TC', 'amc', [('small', 4, 'u32')] * 3)]:
+        out.setdefault(c.name, c)
+    return out
+
+
+def all_set_configs():
+    out = {}
+    F, S, R = 'flat', 'small', 'std'
+    for tier in ('thorough', 'quick'):
+        one, two = set_configs(tier)
+        for c in one + two:
+            out.setdefault(c.name, c)
+    extra = [SetCfg('sim_fl_NTR', 'NTR', 'stdlike', [(F, 'Cmp'), (F, 'Cmp'), (F, 'Cmp2')]),
+             SetCfg('sim_sm_TR', 'TR', 'amcled', [(S, 'Cmp', 2), (S, 'Cmp', 2), (S, 'Cmp2', 4)]),
+             SetCfg('sim_smflat_NTR', 'NTR', 'stdlike', [(S, 'CmpT', 3, 'flat'), (S, 'CmpT', 3, 'flat'), (F, 'CmpT')]),
+             SetCfg('sim_ref_stdset', 'NTR', 'stdlike', [(R, 'Cmp'), (R, 'Cmp'), (R, 'Cmp2')]),
+             SetCfg('sf_fl_NTR_amcled', 'NTR', 'amcled', [(F, 'Cmp')]), SetCfg('sf_fl_small2_TR', 'TR', 'stdlike', [(F, 'Cmp', 0, None, 'small2')]),
+             SetCfg('sf_sm2_NTR_stdlike', 'NTR', 'stdlike', [(S, 'Cmp', 2)]), SetCfg('sf_sm2flat_NTR', 'NTR', 'amcled', [(S, 'Cmp', 2, 'flat')]),
+             SetCfg('sf_p_fl_NTR', 'NTR', 'stdlike', [(F, 'Cmp')] * 2), SetCfg('sf_p_flx_NTR', 'NTR', 'amcled', [(F, 'Cmp'), (F, 'Cmp2')]),
+             SetCfg('sf_p_sm2_NTR', 'NTR', 'stdlike', [(S, 'Cmp', 2)] * 2), SetCfg('sf_fl_TR_withrealloc', 'TR', 'withrealloc', [(F, 'CmpT')]),
+             SetCfg('sf_sm3_TR_amcled', 'TR', 'amcled', [(S, 'CmpT', 3)]), SetCfg('sf_p_smx_NTR', 'NTR', 'amcled', [(S, 'Cmp', 2), (S, 'Cmp2', 3)]),
+             SetCfg('big_fl_TC_amc', 'TC', 'amc', [(F, 'CmpT')]), SetCfg('big_fl_small2_NTR', 'NTR', 'stdlike', [(F, 'CmpT', 0, None, 'small2')]),
+             SetCfg('big_fl_stdvec_TR', 'TR', 'stdlike', [(F, 'CmpT', 0, None, 'std')]), SetCfg('big_ref_stdset', 'TC', 'stdlike', [('std', 'CmpT')])]
+    for c in extra:
+        out.setdefault(c.name, c)
+    return out
+
+
 def replay(path):
+    """Re-execute a replay file: rebuild the harness of its configuration from the current tree, replay the labels of
+    the execution, validate with TLC, print the verdict.  Exit 1 if the violation shows again, 0 if not."""
     rp = json.load(open(path))
-    print('replay of %s on %s: not yet implemented' % (rp['property'], rp['config']))
-    return 2
+    prop, cfgname, labels = rp['property'], rp['config'], rp.get('labels') or []
+    d = workdir(vlib.inputs_hash(), 'replay_run')
+    print('replay property=%s config=%s recorded line=%s why=%s labels=%d' % (prop, cfgname, rp.get('line'), rp.get('why'), len(labels)))
+    vcfg = all_vec_configs().get(cfgname)
+    scfg = all_set_configs().get(cfgname)
+    if not labels or (vcfg is None and scfg is None):
+        print('this replay file belongs to a suite without a per-execution replay (%s): re-run ./check %s to reproduce' % (rp.get('suite_kind'), prop))
+        return 2
+    script = os.path.join(d, 'replay.script')
+    with open(script, 'w') as f:
+        for i, l in enumerate(labels):
+            line = vecpipe.label_line(l) if vcfg else setpipe.slabel_line(l)
+            # the last label of a fault probe carries its fault index already (k)
+            f.write(line + '\n')
+        f.write('reset\n')
+    r = run_cfg_script(d, vcfg, script, 'replay', batch=1) if vcfg else run_set_script(d, scfg, script, 'replay', batch=1)
+    mine = [v for v in r['viol'] if v['p'] == prop]
+    for v in r['viol'][:10]:
+        print('  %s line %d: %s' % (v['p'], v['l'], v['why']))
+    if mine:
+        print('VIOLATION property=%s replay=%s' % (prop, path))
+        return 1
+    print('the execution is accepted on the current tree')
+    return 0
